@@ -4,7 +4,7 @@ use std::io;
 use crate::entity::{serialize_attribute, serialize_cdata, serialize_text};
 use crate::error::Error;
 use crate::id::{NameId, NamespaceId, PrefixId};
-use crate::output::Normalizer;
+use crate::output::{NoopNormalizer, Normalizer};
 use crate::xotdata::{Node, Xot};
 
 use super::fullname::FullnameSerializer;
@@ -193,7 +193,7 @@ impl<'a, N: Normalizer> Html5Serializer<'a, N> {
                     let local_name = self.xot.local_name_str(element.name_id);
                     let namespace_uri = serialize_attribute(
                         self.xot.namespace_str(namespace_id).into(),
-                        &self.normalizer,
+                        &NoopNormalizer,
                     );
                     return Ok(OutputToken {
                         space: false,
@@ -254,7 +254,7 @@ impl<'a, N: Normalizer> Html5Serializer<'a, N> {
                 // a namespace URI is an attribute value like any other
                 let namespace = serialize_attribute(
                     self.xot.namespace_str(*namespace_id).into(),
-                    &self.normalizer,
+                    &NoopNormalizer,
                 );
                 if *prefix_id == self.xot.empty_prefix_id {
                     OutputToken {
